@@ -125,12 +125,6 @@ Definition ref_env_value (os : env) (secrets dotenv : list env) (v : pstr) : opt
   | None => match last_def secrets v with Some x => Some x | None => get os v end
   end.
 
-(* region of the open defect F37: non-empty prefix and a tuple of candidate names *)
-Definition safe_field (prefix : pstr) (f : field) : bool :=
-  negb (negb (is_nil prefix) && match f_explicit f with ExTuple (_ :: _) => true | _ => false end).
-
-Definition safe_cls (c : cls) (a : args) : bool := forallb (safe_field (eff_prefix c a)) (c_fields c).
-
 (* admissible outcomes of an instantiation on environment e *)
 Definition adm_outcome (e : env) (c : cls) (a : args) (o : outcome) : Prop :=
   exists ss,
